@@ -23,12 +23,13 @@ RULE = ("all (d1,d2,overwrite) of spec/DictUtils.tla's bounded universes (TLC en
         "histories (TLC -simulate) chained on the returned object; the spec satisfies UpdateLaws/FindLaws")
 
 CI = impl.CaseInsensitiveOrderedDict
-STR = {1: "ab", 2: "abc", 3: "b"}          # interned text: id order = sort order; 1 and 3 are substrings of 2
-INT = {1: 1, 2: 2}
+STR = {0: "", 1: "ab", 2: "abc", 3: "b"}   # interned text: id order = sort order; 1 and 3 are substrings of 2; 0 is falsy
+INT = {0: 0, 1: 1, 2: 2}
 VARIANTS = ("plain", "mapfile")
 JVM = {"JAVA_TOOL_OPTIONS": "-XX:ParallelGCThreads=2 -XX:CICompilerCount=2"}
 NEGATIVE = {"noneReplaces": ("u", "UpdateLaws"), "ignoreOverwrite": ("u", "UpdateLaws"),
-            "extrasDropped": ("u", "UpdateLaws"), "findallReversed": ("f", "FindLaws")}
+            "extrasDropped": ("u", "UpdateLaws"), "findallReversed": ("f", "FindLaws"),
+            "findByMembership": ("f", "FindLaws")}
 
 
 # ----------------------------------------------------------------------------- concretisation / projection
@@ -290,8 +291,8 @@ def check_findkey(ck, case, variant):
 
 
 # ----------------------------------------------------------------------------- TLC jobs
-def constants(big=False, mention=2, maxlist=2, ow=(False, True), names=(0, 1, 2), hist=3, bug="none"):
-    return {"Big": big, "MaxMention": mention, "MaxList": maxlist,
+def constants(big=False, mention=2, maxlist=2, vary=3, ow=(False, True), names=(0, 1, 2, 3), hist=3, bug="none"):
+    return {"Big": big, "MaxMention": mention, "MaxList": maxlist, "Vary": vary,
             "OwSet": "@{%s}" % ", ".join("TRUE" if o else "FALSE" for o in ow), "NameOpts": set(names),
             "MaxHist": hist, "Bug": bug}
 
